@@ -28,7 +28,7 @@ RULE = ('(a) programs: every assignment of behaviours {CONTINUE, FAIL_AND_CONTIN
         'function, line, hit) reached by a discovery run, pausing there while one complete '
         'abort is performed (quick: seeded sample), and one run per line reached by the '
         '*aborting* thread, held there 150 ms while the framework threads run on, for an '
-        'abort arriving at the start / end of the slow main phase; distinct = distinct program or (program, '
+        'abort arriving at the start / end of the slow main phase; plus programs with run_if predicates that say no / raise, groups without setup phases and stop_on_first_failure; distinct = distinct program or (program, '
         'pause point); non-trivial = at least one group instance was judged')
 ASSUMPTIONS = [
     'a group is "entered" iff every setup phase has a recorded non-terminal result, was invoked, '
